@@ -26,7 +26,7 @@ import signal
 import sys
 import tempfile
 
-REPO = os.environ.get("VERIF_REPO_PATH") or "/repo"
+from harness import REPO
 if REPO != "/repo" or "/repo" not in sys.path:
     sys.path.insert(0, REPO)
 
